@@ -306,6 +306,11 @@ def r5_system_time(chk, prog):
                 "system_time returns %s, not the sampled Utc::now()" % sorted(map(repr, ret)))
     rec = [bb for bb, t in ctx.calls(CREATE) if only_calls(ctx.origins.of_operand(t.args[2]), NOW)]
     chk.require(bool(rec), "R5", ctx.fn, "records-time", "the sampled time is not recorded in the datastore")
+    p4 = ctx.cfg.witness_path(rec, set(S) | set(T))
+    chk.require(p4 is None, "R5", ctx.fn, "records-only-after-guard",
+                "the sampled time is recorded before/without the went-backwards guard: a clock that stepped "
+                "back overwrites the latest known time, so the next attempt is judged against the earlier clock",
+                ctx.site(rec[0]) if rec else None, path=ctx.describe_path(p4))
     # who may call Utc::now in tough
     callers = set()
     for b in prog.bodies.values():
